@@ -177,7 +177,7 @@ inline uint64_t gen_for(vp::Rng &r, const RegD &reg) {
 }
 
 // ---- valid tables of the small-scope family (constructed, never filtered)
-struct FamilyOpts { unsigned max_areas = 3, max_size = 12, max_regs = 5; bool allow_fail = true, allow_nowrite = true, allow_ro = true, allow_wo = true; bool only_blockwrite_types = false;
+struct FamilyOpts { unsigned max_areas = 3, max_size = 12, max_regs = 5; bool allow_fail = true, allow_nowrite = true, allow_ro = true, allow_wo = true; bool only_blockwrite_types = false; bool allow_descending = true;   // ranges with descending limits in areas that never load defaults
                     unsigned huge = 0;    // 1 in `huge` tables gets an area of more than 2^16 words with registers behind offset 0x10000 (0: never)
                     unsigned many = 0; }; // 1 in `many` tables gets 32..70 registers (0: never)
 inline TableD gen_table(vp::Rng &r, const FamilyOpts &o = FamilyOpts()) {
@@ -233,7 +233,7 @@ inline TableD gen_table(vp::Rng &r, const FamilyOpts &o = FamilyOpts()) {
             default: reg.def = gen_finite(r, type); break;
             }
             // a range with descending limits admits nothing; a table holding one is well-formed as long as the default is never loaded
-            if (reg.ckind == rm::C_RANGE && !a.loads_defaults() && rm::cmp(type, reg.lo, reg.hi) < 0 && r.chance(1, 3)) std::swap(reg.lo, reg.hi);
+            if (o.allow_descending && reg.ckind == rm::C_RANGE && !a.loads_defaults() && rm::cmp(type, reg.lo, reg.hi) < 0 && r.chance(1, 3)) std::swap(reg.lo, reg.hi);
             t.regs.push_back(reg);
             pos = reg.end();
         }
